@@ -18,7 +18,11 @@ RULE = (
     "Oracle: all earlier items first, RemoteError exactly once (text carries type, message, 'Traceback'), EOFError "
     "afterwards; the callback is never called again after it raised (except for a requested endmarker); the failing "
     "side's own channel is closed with a RemoteError; every sibling transcript is exact; the gateway survives "
-    "(a fresh remote_exec at the end succeeds). Non-trivial = failure position > 0 or a sibling with traffic."
+    "(a fresh remote_exec at the end succeeds). Non-trivial = failure position > 0 or a sibling with traffic. Part "
+    "'reconf': on a real popen worker, generated sequences of raising bodies / raising remote callbacks / healthy bodies "
+    "under each of the four gw.reconfigure() string-coercion settings: items exact, RemoteError carries "
+    "'<Type>: <message>' (non-ASCII included), the gateway answers afterwards; non-trivial = non-default setting "
+    "with at least one failure."
 )
 ASSUMPTIONS = [
     "waitclose may raise the RemoteError while items are still queued; they stay receivable (documented)",
@@ -151,4 +155,142 @@ class Focused(Part):
                     sample={"focus_lines": n, "runs": runs, "stride": stride})
 
 
-PARTS = [Sched(), Focused()]
+class Reconf(Part):
+    """the same guarantee under every string-coercion configuration of the gateway (gw.reconfigure), on a real popen
+    worker: the error text travels as a string item of its own and must not be subject to the user's coercion flags"""
+
+    name = "reconf"
+    budget = {"quick": 120, "thorough": 4000}
+    max_shards = 4
+    min_per_shard = 10
+
+    def setup(self, ctx):
+        from vlib import tree
+
+        import os
+
+        self.execnet = tree.use()
+        # workers inherit fd 2 and print the traceback of every failing callback there
+        devnull = os.open(os.devnull, os.O_WRONLY)
+        self.saved_err = os.dup(2)
+        os.dup2(devnull, 2)
+        os.close(devnull)
+        self.group = self.execnet.Group()
+        self.gw = self.group.makegateway("popen")
+        os.dup2(self.saved_err, 2)
+        os.close(self.saved_err)
+
+    def teardown(self, ctx):
+        import atexit
+
+        from vlib.core import Watchdog
+
+        try:
+            with Watchdog(30):
+                self.group.terminate(timeout=2.0)
+        except BaseException:  # noqa: BLE001
+            pass
+        finally:
+            atexit.unregister(self.group._cleanup_atexit)
+
+    def strategy(self, ctx):
+        text = st.text(st.sampled_from("abc xyz-09\u00e9\u4e2d'\"\\"), min_size=1, max_size=12)
+        step = st.one_of(
+            st.tuples(st.just("raise"), st.sampled_from(["ValueError", "KeyError", "RuntimeError", "ZeroDivisionError"]), text,
+                      st.integers(0, 3)),
+            st.tuples(st.just("ok"), st.just(""), st.just(""), st.integers(0, 3)),
+            st.tuples(st.just("cb_raise"), st.sampled_from(["ValueError", "TypeError"]), text, st.integers(0, 2)),
+        )
+        return st.fixed_dictionaries(dict(conf=st.tuples(st.booleans(), st.booleans()).map(list),
+                                          steps=st.lists(step.map(list), min_size=1, max_size=4)))
+
+    def run(self, case, ctx):
+        from vlib.core import Watchdog
+
+        gw = self.gw
+        if not gw.hasreceiver():
+            self._renew()
+            gw = self.gw
+        RemoteError = self.execnet.RemoteError
+        with Watchdog(120) as wd:
+            try:
+                gw.reconfigure(py2str_as_py3str=case["conf"][0], py3str_as_py2str=case["conf"][1])
+                for i, (kind, exc, text, n) in enumerate(case["steps"]):
+                    where = f"conf {case['conf']} step {i} ({kind} {exc})"
+                    if kind == "cb_raise":
+                        # the failure happens in a callback on the worker side; it comes back on the exec channel
+                        src = ("def cb(x):\n    raise %s(%r)\nsub = channel.receive()\nsub.setcallback(cb)\n"
+                               "channel.send(0)\nchannel.receive()\n" % (exc, text))
+                        ch = gw.remote_exec(src)
+                        sub = gw.newchannel()
+                        ch.send(sub)
+                        ch.receive(30)
+                        sub.send(n)
+                        try:
+                            sub.waitclose(30)
+                            got_err = None
+                        except RemoteError as e:
+                            got_err = str(e)
+                        ch.send(None)
+                        ch.waitclose(30)
+                        got = []
+                    else:
+                        body = "".join("channel.send(%d)\n" % (k * 7) for k in range(n))
+                        if kind == "raise":
+                            body += "raise %s(%r)\n" % (exc, text)
+                        ch = gw.remote_exec(body)
+                        got, got_err = [], None
+                        while True:
+                            try:
+                                got.append(ch.receive(30))
+                            except EOFError:
+                                break
+                            except RemoteError as e:
+                                got_err = str(e)
+                                break
+                        if got != [k * 7 for k in range(n)]:
+                            raise Violation("reconf.items", f"{where}: items {got}")
+                    if kind == "ok":
+                        if got_err is not None:
+                            raise Violation("reconf.spurious-error", f"{where}: {got_err[-200:]}")
+                    else:
+                        if got_err is None:
+                            raise Violation("reconf.error-lost", f"{where}: the channel ended without a RemoteError")
+                        import builtins
+
+                        if f"{exc}: {getattr(builtins, exc)(text)}" not in got_err:
+                            raise Violation("reconf.error-text", f"{where}: RemoteError text lacks the exception: {got_err[-200:]!r}")
+                # the gateway survives
+                if gw.remote_exec("channel.send(41 + 1)").receive(30) != 42:
+                    raise Violation("reconf.gateway-broken", f"conf {case['conf']}: the follow-up remote_exec gave a wrong answer")
+            except Violation:
+                self._renew()
+                raise
+            except (EOFError, OSError, self.execnet.TimeoutError) as e:
+                self._renew()
+                if wd.fired:
+                    raise Violation("reconf.hang", f"conf {case['conf']}: no answer within 120 s") from None
+                raise Violation("reconf.gateway-died", f"conf {case['conf']} steps {case['steps']}: {e!r}", exc=e) from None
+        kinds = sorted({s_[0] for s_ in case["steps"]})
+        return dict(labels=[f"conf:{case['conf'][0]:d}{case['conf'][1]:d}"] + kinds,
+                    nontrivial=case["conf"] != [True, False] and any(k != "ok" for k in kinds))
+
+    def _renew(self):
+        import os
+
+        try:
+            self.gw.exit()
+        except Exception:  # noqa: BLE001
+            pass
+        devnull = os.open(os.devnull, os.O_WRONLY)
+        saved = os.dup(2)
+        os.dup2(devnull, 2)
+        try:
+            self.gw = self.group.makegateway("popen")
+        finally:
+            os.dup2(saved, 2)
+            os.close(saved)
+            os.close(devnull)
+
+
+PARTS = [Sched(), Focused(), Reconf()]
